@@ -15,8 +15,17 @@ Two case kinds.
       After the construction and after every operation a *snapshot* of all reads is taken:
       list(c), len(c), c[i] for i in [-(n+2), n+1], c.index(x) and `x in c` for every probe member,
       and the triple footprint (independent walker: well-formed chain, no orphaned cells,
-      non-list triples untouched).
+      non-list triples untouched); then (round g) `list(g.items(head))` called directly and the text of
+      `c.n3()`, which must be "( " + the members' own n3() joined by blanks + " )" and must read back as the
+      list through rdflib's Turtle parser.
       Oracle (independent of Lean): a real Python list subjected to the same operations.
+
+  {"kind": "two", …as "hist" with init mode "triples"…, "second": {"items": [ids], "share": k | null, "junk": [[s,p,o]…]}}
+      (round g) The same history on a graph that ALSO holds a second collection (head 200, private cells 200…) which
+      either ends in rdf:nil (disjoint) or is linked into the first collection's k-th cell (shared tail), plus stray
+      list triples on other subjects.  The first collection must behave exactly like the list (footprint taken
+      without the foreign subjects), every triple with a foreign subject must stay as it is, a disjoint second
+      collection must keep its list; what a tail-sharing second collection reads afterwards is compared with the model.
 
   {"kind": "broken", "head": …, "triples": [[s,p,o]…], "reads": [["len"]|["iter"]|["get",i]|["index",x]|["contains",x]]}
       Cyclic / broken chains written directly; every read must return or raise (watchdog in core),
@@ -26,6 +35,7 @@ Terms are small integers: 0 = rdf:first, 1 = rdf:rest, 2 = rdf:nil, 5/6 other pr
 subject, 10…19 members (falsy literals and look-alikes included), 100… cells (100 = head).
 Blank nodes minted by rdflib never cross the protocol (footprints are compared by shape).
 """
+import re
 import signal
 import warnings
 
@@ -40,7 +50,10 @@ LEAN_TARGETS = ["RV.C19.Props", "RV.C19.Audit"]
 AUDIT = "RV/C19/Audit.lean"
 DRIVER = "drv_c19"
 CASES = {"quick": 1400, "thorough": 40000, "search": 20000}
-RULE = ("histories (1-12 ops) of append / += (operand as list, tuple, generator, iter(list), map, dict keys view, "
+RULE = ("(round g: after every op also list(g.items(head)), the text of c.n3() and its read-back by the Turtle parser; "
+        "16 % of the cases run the history on a graph that also holds a second collection, disjoint or linked into a cell "
+        "of the first, and stray list triples: own footprint, foreign triples untouched, second list) "
+        "histories (1-12 ops) of append / += (operand as list, tuple, generator, iter(list), map, dict keys view, "
         "another Collection, the collection itself) / Collection(g, head, seq) re-opened on the list in mid-history / "
         "item assignment / item deletion / clear on Collection(g, head) from "
         "start lengths 0-5 built by the constructor or from hand-written triples, members from a falsy-aware vocabulary "
@@ -56,6 +69,7 @@ TRUSTED = ["harness/c19.py generators, canonicalisation and the independent chai
 
 FIRST, REST, NIL = 0, 1, 2
 HEAD = 100
+HEAD2, JUNK, FOREIGN = 200, 300, (200, 399)
 MEMBERS = {
     10: URIRef("http://e/a"), 11: BNode("m1"), 12: Literal(0), 13: Literal(""), 14: Literal(False),
     15: Literal("x"), 16: Literal(1), 17: Literal("1"), 18: Literal("0"), 19: Literal("", lang="en"),
@@ -70,6 +84,11 @@ def _terms(head_kind):
     t.update(OTHER)
     for i in range(HEAD, HEAD + 64):
         t[i] = BNode(f"c{i}")
+    for i in range(HEAD2, HEAD2 + 8):       # private cells of a second collection in the same graph
+        t[i] = BNode(f"d{i}")
+    t[HEAD2] = URIRef("http://e/list2") if head_kind == "u" else t[HEAD2]
+    for i in range(JUNK, JUNK + 4):         # subjects of stray list triples
+        t[i] = BNode(f"j{i}")
     if head_kind == "u":
         t[HEAD] = URIRef("http://e/list")
     return t
@@ -248,15 +267,46 @@ def _gen_broken(rng, tier):
     absent = [m for m in MEMBERS if m not in voc][0]
     reads = [["len"], ["iter"]] + [["get", i] for i in range(-(n + 2), n + 3)]
     reads += [["index", x] for x in voc + [absent]] + [["contains", x] for x in voc + [absent]]
+    reads.append(["ext"])
     rng.shuffle(reads)
     gk = "mem" if shape in ("two-rests", "two-firsts") else rng.choice(["mem", "mem", "simple", "ds"])
     return {"kind": "broken", "head": rng.choice(["b", "u"]), "g": gk, "shape": shape, "triples": dedup,
             "reads": reads}
 
 
+def _gen_two(rng, tier):
+    case = _gen_hist(rng, tier)
+    case["kind"] = "two"
+    case["init"]["mode"] = "triples"
+    ops = case["ops"]
+    if ops and ops[-1][0] == "set":          # no C19-K1 here: a trailing set may be the one at index len
+        ops.pop()
+    if not ops:
+        ops.append(["append", rng.choice(list(MEMBERS))])
+    n1 = len(case["init"]["items"])
+    voc = case["probe"] or list(MEMBERS)
+    items2 = [rng.choice(voc) for _ in range(rng.choice([1, 1, 2, 3]))]
+    share = rng.randrange(n1) if n1 and rng.random() < 0.6 else None
+    junk = []
+    if rng.random() < 0.4:
+        junk.append([JUNK, FIRST, rng.choice(voc)])
+        r = rng.random()
+        if r < 0.4:
+            junk.append([JUNK, REST, JUNK + 1])                          # dangling
+        elif r < 0.7 and n1:
+            junk.append([JUNK, REST, HEAD + rng.randrange(n1)])          # points into the first collection
+        if rng.random() < 0.3:
+            junk.append([JUNK + 2, 5, HEAD])
+    case["second"] = {"items": items2, "share": share, "junk": junk}
+    return case
+
+
 def gen_case(rng, tier, i):
-    if rng.random() < 0.14:
+    r = rng.random()
+    if r < 0.14:
         return _gen_broken(rng, tier)
+    if r < 0.30:
+        return _gen_two(rng, tier)
     return _gen_hist(rng, tier)
 
 
@@ -279,9 +329,9 @@ def _call(f):
         return _exc(e), None
 
 
-def _footprint(g, head, T, rev):
+def _footprint(g, head, T, rev, foreign=()):
     """Independent walker over plain triple lookups (no Graph.items / Graph.value / Collection)."""
-    lt = [(s, p, o) for s, p, o in g.triples((None, None, None)) if p in (RDF.first, RDF.rest)]
+    lt = [(s, p, o) for s, p, o in g.triples((None, None, None)) if p in (RDF.first, RDF.rest) and s not in foreign]
     by = {}
     for s, p, o in lt:
         by.setdefault(s, {RDF.first: [], RDF.rest: []})[p].append(o)
@@ -304,7 +354,7 @@ def _footprint(g, head, T, rev):
     if status == "ok" and orphans:
         status = "orphans=%d" % len(orphans)
     extra = sorted((rev.get(s, 999), rev.get(p, 999), rev.get(o, 999))
-                   for s, p, o in g.triples((None, None, None)) if p not in (RDF.first, RDF.rest))
+                   for s, p, o in g.triples((None, None, None)) if p not in (RDF.first, RDF.rest) and s not in foreign)
     return status, len(lt), vals, extra
 
 
@@ -320,7 +370,7 @@ def _show(kind, v, rev):
     return str(rev.get(v, 999))
 
 
-def _snapshot(c, g, head, T, rev, l, probe, viol, where, extra0):
+def _snapshot(c, g, head, T, rev, l, probe, viol, where, extra0, foreign=()):
     n = len(l)
     parts = []
     k, v = _call(lambda: list(c))
@@ -356,7 +406,7 @@ def _snapshot(c, g, head, T, rev, l, probe, viol, where, extra0):
             viol.append(f"contains: {where}: ({x} in c) gives {cs[-1]} but the list is {l}")
     parts.append("I=" + ";".join(ix))
     parts.append("C=" + ";".join(cs))
-    status, nlt, vals, extra = _footprint(g, head, T, rev)
+    status, nlt, vals, extra = _footprint(g, head, T, rev, foreign)
     parts.append(f"F={status},{nlt}")
     parts.append("X=" + (";".join(".".join(map(str, t)) for t in extra) or "-"))
     if status != "ok":
@@ -368,6 +418,83 @@ def _snapshot(c, g, head, T, rev, l, probe, viol, where, extra0):
     if extra != extra0:
         viol.append(f"frame: {where}: triples that are not part of the list changed: {extra0} -> {extra}")
     return " ".join(parts)
+
+
+_S, _P = URIRef("http://e/s"), URIRef("http://e/p")
+
+
+def _second_triples(sec):
+    n2 = len(sec["items"])
+    last = NIL if sec["share"] is None else HEAD + sec["share"]
+    return _chain([HEAD2 + k for k in range(n2)], sec["items"], last=last) + [list(t) for t in sec["junk"]]
+
+
+def _second(g, T, rev, fset, sec, f0, viol, where, stats):
+    """the other collection read through its own head, and every triple with a foreign subject"""
+    c2 = Collection(g, T[HEAD2])
+    k, v = _call(lambda: list(c2))
+    k2, n = _call(lambda: len(c2))
+    ft = sorted((rev.get(s, 999), rev.get(p, 999), rev.get(o, 999)) for s, p, o in g if s in fset)
+    if ft != f0:
+        viol.append(f"frame2: {where}: triples of another collection / stray list triples changed: {f0} -> {ft}")
+    if sec["share"] is None and (k != "ok" or [rev.get(x, 999) for x in v] != sec["items"]):
+        viol.append(f"second: {where}: a disjoint second collection in the same graph now reads {_show(k, v, rev)}, "
+                    f"it was {sec['items']}")
+    if sec["share"] is not None and (k != "ok" or [rev.get(x, 999) for x in v][:len(sec["items"])] != sec["items"]):
+        viol.append(f"second: {where}: the private prefix of the tail-sharing collection reads {_show(k, v, rev)}, "
+                    f"it was {sec['items']}")
+    return f"L2={_show(k, v, rev)} N2={_show(k2, n, rev)} F2=" + (";".join(".".join(map(str, t)) for t in ft) or "-")
+
+
+def _read_n3_list(txt):
+    """the reader: rdflib's Turtle parser on `<s> <p> ( … ) .`, then plain triple lookups along the parsed list"""
+    pg = Graph()
+    pg.parse(data=f"<http://e/s> <http://e/p> {txt} .", format="turtle")
+    cur, vals = next(pg.objects(_S, _P)), []
+    for _ in range(10000):
+        if cur == RDF.nil:
+            return vals
+        vals.append(next(pg.objects(cur, RDF.first)))
+        cur = next(pg.objects(cur, RDF.rest))
+    raise ValueError("parsed list does not end")
+
+
+def _same_terms(got, want):
+    """equal up to a consistent renaming of blank nodes (the parser relabels them)"""
+    if len(got) != len(want):
+        return False
+    m = {}
+    for a, b in zip(got, want):
+        if isinstance(b, BNode):
+            if not isinstance(a, BNode) or m.setdefault(b, a) != a:
+                return False
+        elif a != b or type(a) is not type(b) or (isinstance(b, Literal) and (a.datatype, a.language) != (b.datatype, b.language)):
+            return False
+    return len(set(m.values())) == len(m)
+
+
+def _ext(c, g, head, T, rev, l, viol, where, seen, stats):
+    """round g: Graph.items called directly, and Collection.n3()"""
+    k, v = _call(lambda: list(g.items(head)))
+    it = _show(k, v, rev)
+    if k != "ok" or [rev.get(x, 999) for x in v] != l:
+        viol.append(f"gitems: {where}: list(g.items(head)) = {it} but the list is {l}")
+    k, txt = _call(lambda: c.n3())
+    if k != "ok":
+        viol.append(f"n3-text: {where}: c.n3() raised {k}")
+        return f"IT={it} N3={k}"
+    want = "( %s )" % " ".join(T[x].n3() for x in l)
+    if txt != want:
+        viol.append(f"n3-text: {where}: c.n3() = {txt!r} but the list {l} is written {want!r}")
+    if txt not in seen:
+        rk, vals = _call(lambda: _read_n3_list(txt))
+        seen[txt] = rk == "ok" and _same_terms(vals, [T[x] for x in l])
+        stats["n3_read_back"] = stats.get("n3_read_back", 0) + 1
+        stats["n3_len_%s" % (len(l) if len(l) < 4 else "4+")] = 1
+        if not seen[txt]:
+            viol.append(f"n3-reader: {where}: {txt!r} read back by the Turtle parser gives "
+                        f"{rk if rk != 'ok' else [x.n3() for x in vals]}, the list is {[T[x].n3() for x in l]}")
+    return f"IT={it} N3={txt}"
 
 
 def _run_hist(case):
@@ -394,12 +521,23 @@ def _run_hist(case):
         c = g.collection(head) if len(case["ops"]) % 2 else Collection(g, head)
         obs.append("ok")
     l = list(items)
-    obs.append(_snapshot(c, g, head, T, rev, l, case["probe"], viol, "at start", extra0))
-    mutated = False
+    sec, fset, f0 = case.get("second"), (), []
+    if sec:
+        for s_, p_, o_ in _second_triples(sec):
+            g.add((T[s_], T[p_], T[o_]))
+        fset = {T[i] for i in range(FOREIGN[0], FOREIGN[1] + 1) if i in T}
+        f0 = sorted(set(map(tuple, _second_triples(sec))))
+    obs.append(_snapshot(c, g, head, T, rev, l, case["probe"], viol, "at start", extra0, fset))
+    mutated, seen = False, {}
     stats = {"hist": 1, "start_len_%d" % len(items): 1, "mode_" + case["init"]["mode"]: 1,
              "graph_" + case.get("g", "mem"): 1}
     if case["init"]["mode"] == "ctor":
         stats["init_shape_" + case["init"].get("shape", "list")] = 1
+    obs.append(_ext(c, g, head, T, rev, l, viol, "at start", seen, stats))
+    if sec:
+        stats.update({"two": 1, "two_shared" if sec["share"] is not None else "two_disjoint": 1,
+                      "two_junk": int(bool(sec["junk"]))})
+        obs.append(_second(g, T, rev, fset, sec, f0, viol, "at start", stats))
     for j, op in enumerate(case["ops"]):
         kind = op[0]
         n = len(l)
@@ -463,14 +601,17 @@ def _run_hist(case):
             viol.append(f"{tag}: op {j} {op} on the list of length {n}: the collection gives {k}, the list {want}")
         if k == "ok" and n > 0 and kind != "clear":
             mutated = True
-        obs.append(_snapshot(c, g, head, T, rev, l, case["probe"], viol, f"after op {j} {op}", extra0))
+        obs.append(_snapshot(c, g, head, T, rev, l, case["probe"], viol, f"after op {j} {op}", extra0, fset))
+        obs.append(_ext(c, g, head, T, rev, l, viol, f"after op {j} {op}", seen, stats))
+        if sec:
+            obs.append(_second(g, T, rev, fset, sec, f0, viol, f"after op {j} {op}", stats))
     if not _decoy_ok(ds):
         viol.append("frame: the same head's list in another graph of the dataset was touched")
     if any(x in FALSY for x in items) or any(x in FALSY for op in case["ops"] for x in
                                              (op[1] if op[0] in ("iadd", "ctor") else op[1:])):
         stats["falsy_member"] = 1
     return {"obs": obs, "viol": viol, "nontrivial": mutated,
-            "key": repr((case["head"], case["init"], case["ops"])), "stats": stats}
+            "key": repr((case["head"], case["init"], case["ops"], case.get("second"))), "stats": stats}
 
 
 def _run_broken(case):
@@ -506,6 +647,14 @@ def _run_broken(case):
             k, v = _call(lambda: c.index(T[r[1]]))
         elif r[0] == "contains":
             k, v = _call(lambda: T[r[1]] in c)
+        elif r[0] == "ext":
+            k, v = _call(lambda: list(g.items(T[HEAD])))
+            k2, txt = _call(lambda: c.n3())
+            obs.append(f"IT={_show(k, v, rev)} N3={txt if k2 == 'ok' else k2}")
+            raised = raised or k != "ok" or k2 != "ok"
+            if cyclic and (k == "ok" or k2 == "ok"):
+                viol.append(f"cyclic-no-raise: g.items / c.n3() on a cyclic chain returned ({k}, {k2}) instead of raising")
+            continue
         else:
             raise ValueError(r)
         obs.append(_show(k, v, rev))
@@ -529,7 +678,7 @@ def run_impl(case):
     if rem > 0:
         signal.setitimer(signal.ITIMER_REAL, rem, 0.2)
     try:
-        return _run_hist(case) if case["kind"] == "hist" else _run_broken(case)
+        return _run_hist(case) if case["kind"] in ("hist", "two") else _run_broken(case)
     except core.CaseTimeout:
         signal.setitimer(signal.ITIMER_REAL, 0)
         raise
@@ -560,8 +709,18 @@ def model_lines(case):
         for t in _chain([HEAD + k for k in range(len(items))], items):
             lines.append("t " + " ".join(map(str, t)))
         lines.append("nop")
+    sec = case.get("second")
+    if sec:
+        ft = []
+        for t in _second_triples(sec):
+            if t not in ft:
+                ft.append(t)
+        lines[-1:-1] = [f"foreign {FOREIGN[0]} {FOREIGN[1]}"] + ["t " + " ".join(map(str, t)) for t in ft]
     l = list(items)
     lines.append(_snapline(len(l), case["probe"]))
+    lines.append("ext")
+    if sec:
+        lines.append(f"second {HEAD2}")
     for op in case["ops"]:
         n = len(l)
         if op[0] == "append":
@@ -585,6 +744,9 @@ def model_lines(case):
         elif op[0] == "clear":
             l.clear(); lines.append("clear")
         lines.append(_snapline(len(l), case["probe"]))
+        lines.append("ext")
+        if sec:
+            lines.append(f"second {HEAD2}")
     return lines
 
 
@@ -593,11 +755,26 @@ def _ctor_line(xs, shape):
     return ("iadd" if shape in ONE_SHOT else "ctor") + "".join(f" {x}" for x in xs)
 
 
+def _n3_terms(case, out):
+    """the model writes member k as `<k>` in the text of n3(): put the member's own n3() there"""
+    T = _terms(case["head"])
+    sub = lambda m: T[int(m.group(1))].n3() if int(m.group(1)) in T else m.group(0)
+    res = []
+    for line in out:
+        if line.startswith("IT=") and " N3=" in line:
+            a, b = line.split(" N3=", 1)
+            line = a + " N3=" + re.sub(r"<(\d+)>", sub, b)
+        res.append(line)
+    return res
+
+
 def select_model_obs(case, out):
     if case["kind"] == "broken":
-        return out[1 + len(case["triples"]):]
+        return _n3_terms(case, out[1 + len(case["triples"]):])
     n0 = 1 + len(case["extra"]) + (0 if case["init"]["mode"] == "ctor" else 2 * len(case["init"]["items"]))
-    return out[n0:]
+    if case.get("second"):
+        n0 += 1 + len({tuple(t) for t in _second_triples(case["second"])})
+    return _n3_terms(case, out[n0:])
 
 
 # ------------------------------------------------------------------ shrinking / findings
@@ -612,6 +789,23 @@ def shrink(case):
             yield {**case, "triples": ts[:i] + ts[i + 1:]}
         return
     ops, items = case["ops"], case["init"]["items"]
+    sec = case.get("second")
+    if sec:
+        # (the start list is not shortened while a second collection hangs on one of its cells)
+        for i in range(len(ops) - 1, -1, -1):
+            yield {**case, "ops": ops[:i] + ops[i + 1:]}
+        if sec["junk"]:
+            yield {**case, "second": {**sec, "junk": sec["junk"][:-1]}}
+        if len(sec["items"]) > 1:
+            yield {**case, "second": {**sec, "items": sec["items"][1:]}}
+        if sec["share"] is None:
+            for i in range(len(items)):
+                yield {**case, "init": {**case["init"], "items": items[:i] + items[i + 1:]}}
+        if case["extra"]:
+            yield {**case, "extra": case["extra"][:-1]}
+        if case.get("g", "mem") != "mem":
+            yield {**case, "g": "mem"}
+        return
     if len(ops) > 1:            # fold the first operation into the start list
         l, ok = _apply(list(items), ops[0])
         if ok and len(l) < 60:
@@ -676,7 +870,7 @@ def _m_set_at_len(case, result):
     """C19-K1: the LAST operation of the history is `c[len(c)] = x` (index = the list's length at that moment),
     the collection accepts it where the list raises IndexError, and nothing is reported before that operation
     (what is reported after it are the consequences of the rdf:first written onto rdf:nil / the empty head)."""
-    if case.get("kind") != "hist" or not case["ops"]:
+    if case.get("kind") != "hist" or not case["ops"] or case.get("second"):
         return False
     l = list(case["init"]["items"])
     for op in case["ops"][:-1]:
